@@ -187,8 +187,18 @@ def c10_4(ck, prog):
                 breaks='one flooding client monopolises the main loop', floor=2)
     fn = prog.fn('do_reading', TS)
 
+    # the running byte count is the local that is accumulated with `+=`; the clamped length is the local
+    # handed to the read call (names are the tree's business)
+    budget_ids = {l['id'] for b, i, ev in fn.events() for l, how, rhs in written_lvalues(ev)
+                  if is_ref(l) and l.get('kind') == 'local' and how == '+='}
+    len_ids = set()
+    for b, i, c in fn.calls():
+        if c.get('callee') in ('_dbus_read_socket', '_dbus_read_socket_with_unix_fds') and len(c['args']) >= 3 \
+                and is_ref(c['args'][2]):
+            len_ids.add(c['args'][2]['id'])
+
     def akey(atom, resolve):
-        if atom[0] == 'cmp' and atom[1] == '<=' and is_ref(atom[2], 'total') and \
+        if atom[0] == 'cmp' and atom[1] == '<=' and is_ref(atom[2]) and atom[2].get('id') in budget_ids and \
                 is_member(atom[3], 'max_bytes_read_per_iteration'):
             return ('within-budget', frozenset([atom[2]['id']]))
         return None
@@ -213,7 +223,7 @@ def c10_4(ck, prog):
         t = blk.get('term')
         if t and t.get('cond') is not None:
             c = t['cond']
-            if c.get('k') == 'bin' and c['op'] == '>' and is_ref(c['l'], 'max_to_read') \
+            if c.get('k') == 'bin' and c['op'] == '>' and is_ref(c['l']) and c['l'].get('id') in len_ids \
                     and is_member(c['r'], 'max_bytes_read_per_iteration'):
                 clamp = True
     if clamp:
